@@ -667,7 +667,6 @@ func failEdgeReturnsErrorAllow(e *Env, p *load.Program, rule, key string, call *
 	return failEdgeReturnsError(e, p, rule, key, call, nilFirst)
 }
 
-
 // sameBuffer: the same slice value, or two whole slices of the same local array (go/ssa does not share them).
 func sameBuffer(a, b ssa.Value) bool {
 	if a == b {
@@ -708,7 +707,6 @@ func sameArray(a, b ssa.Value) bool {
 	}
 	return false
 }
-
 
 // deferEstablishes: the function has a named error result and an unconditionally deferred closure of the form
 // `if e := X(); result == nil { result = e }`: whatever the body returns, a nil final result means X succeeded.
